@@ -671,7 +671,7 @@ func (c *sgCase) body(id string) int {
 
 func (c *sgCase) fail(f string, a ...interface{}) { c.oracle = append(c.oracle, fmt.Sprintf(f, a...)) }
 
-func coqOptN(i int) string {
+func sigCoqOptN(i int) string {
 	if i < 0 {
 		return "None"
 	}
@@ -709,7 +709,7 @@ func (c *sgCase) coq() string {
 			for len(seqs) < na {
 				seqs = append(seqs, 0)
 			}
-			steps = append(steps, fmt.Sprintf("(%s, %s, %s, %s)", s.coq, coqBool(s.OtherOK), coqOptN(s.Who), coqU64s(seqs)))
+			steps = append(steps, fmt.Sprintf("(%s, %s, %s, %s)", s.coq, coqBool(s.OtherOK), sigCoqOptN(s.Who), coqU64s(seqs)))
 		}
 		hs = append(hs, fmt.Sprintf("mk_hist (mk_node (mk_cfg %d%%Z %s) %q %s) %d %s\n     %s",
 			sgThisEIP155, coqBool(h.Allow), chainID, coqList(nums), na, coqList(init), coqList(steps)))
@@ -785,7 +785,7 @@ func (w *sgWorld) ethDescriptor(c *sgCase, tx *ethtypes.Transaction) (string, in
 	if a, err := ethtypes.Sender(ethtypes.LatestSignerForChainID(tx.ChainId()), tx); err == nil {
 		rec = c.intern(sdk.AccAddress(a.Bytes()))
 	}
-	return fmt.Sprintf("SEth %s %s %s %s", coqBool(tx.Protected()), coqZ(tx.ChainId()), coqU64(tx.Nonce()), coqOptN(rec)), rec
+	return fmt.Sprintf("SEth %s %s %s %s", coqBool(tx.Protected()), coqZ(tx.ChainId()), coqU64(tx.Nonce()), sigCoqOptN(rec)), rec
 }
 
 // submitEth runs one Ethereum transaction through the ante handler on ctx and
